@@ -43,6 +43,7 @@ enum Op {
     Reshape(Vec<usize>),
     ToContiguous,
     ClipDim(usize, usize, usize),
+    Append(usize, usize, usize),
 }
 
 #[derive(Clone, Copy, Debug, PartialEq)]
@@ -132,6 +133,7 @@ fn fmt_op(op: &Op) -> String {
         Op::Reshape(s) => format!("E/{}", fmt_list(s)),
         Op::ToContiguous => "O".into(),
         Op::ClipDim(d, s, e) => format!("D/{}/{}/{}", d, s, e),
+        Op::Append(a, k, c) => format!("X/{}/{}/{}", a, k, c),
     }
 }
 fn parse_op(s: &str) -> Op {
@@ -156,6 +158,7 @@ fn parse_op(s: &str) -> Op {
         "E" => Op::Reshape(parse_list(p.get(1).copied().unwrap_or(""))),
         "O" => Op::ToContiguous,
         "D" => Op::ClipDim(n(1), n(2), n(3)),
+        "X" => Op::Append(n(1), n(2), n(3)),
         other => panic!("bad op {}", other),
     }
 }
@@ -199,6 +202,7 @@ fn coq_op(op: &Op) -> String {
         Op::Reshape(s) => format!("OReshape {}", coq_list_n(s)),
         Op::ToContiguous => "OToContiguous".into(),
         Op::ClipDim(d, s, e) => format!("OClipDim {} {} {}", d, s, e),
+        Op::Append(a, k, c) => format!("OAppend {} {} {}", a, k, c),
     }
 }
 
@@ -620,6 +624,30 @@ fn apply(v: &V, op: &Op, arena: &mut Arena) -> Applied {
                 }
             }
         }
+        Op::Append(axis, k, cap) => {
+            // an empty owned tensor with capacity `cap` along `axis`, filled by two appends
+            let t = guard(|| {
+                let mut shape_cap = v.shape().to_vec();
+                if *axis < shape_cap.len() {
+                    shape_cap[*axis] = *cap;
+                }
+                let mut t = Tensor::<i32>::with_capacity(&shape_cap, *axis);
+                let n = v.size(*axis);
+                t.append(*axis, &v.slice_axis(*axis, 0..*k)).map_err(|e| expand_err(&e))?;
+                t.append(*axis, &v.slice_axis(*axis, *k..n)).map_err(|e| expand_err(&e))?;
+                Ok(t)
+            });
+            match t {
+                Err(e) => Err(e),
+                Ok(t) => {
+                    let tshape = t.shape().to_vec();
+                    let tstrides = t.strides().to_vec();
+                    let data = t.into_non_contiguous_data();
+                    let buf = arena.add(data);
+                    guard(|| TensorView::from_slice_with_strides(&tshape, buf, &tstrides).map_err(|_| ErrKind::Anomaly))
+                }
+            }
+        }
     };
     match r {
         Ok(x) => Applied::Ok(x),
@@ -743,7 +771,7 @@ fn exec_line(line: &str) -> String {
             if out.is_err() {
                 n_err += 1;
             }
-            if matches!(op, Op::SliceCopy(_) | Op::Reshape(_) | Op::ToContiguous | Op::ClipDim(..)) {
+            if matches!(op, Op::SliceCopy(_) | Op::Reshape(_) | Op::ToContiguous | Op::ClipDim(..) | Op::Append(..)) {
                 n_copy += 1;
             }
             if let Ok(o) = &out {
@@ -1005,7 +1033,7 @@ fn gen_op(rng: &mut SplitMix64, shape: &[usize], wild: bool) -> Op {
         if wild && rng.chance(1, 10) { rank + rng.below(2) as usize } else { rng.below(r.max(1)) as usize }
     };
     loop {
-        match rng.below(24) {
+        match rng.below(26) {
             0..=3 => return Op::Slice(gen_items(rng, shape, false, wild)),
             4 | 5 => return Op::SliceCopy(gen_items(rng, shape, true, wild)),
             6 => {
@@ -1128,7 +1156,7 @@ fn gen_op(rng: &mut SplitMix64, shape: &[usize], wild: bool) -> Op {
                 return Op::Split(a, m, rng.chance(1, 2));
             }
             22 => return Op::ToContiguous,
-            _ => {
+            23 => {
                 if rank == 0 && !wild {
                     continue;
                 }
@@ -1138,6 +1166,22 @@ fn gen_op(rng: &mut SplitMix64, shape: &[usize], wild: bool) -> Op {
                 let e = s + rng.below((size - s) as u64 + 1) as usize;
                 let (s, e) = if wild && rng.chance(1, 8) { (s, size + 1) } else { (s, e) };
                 return Op::ClipDim(a, s, e);
+            }
+            _ => {
+                if rank == 0 && !wild {
+                    continue;
+                }
+                let a = axis(rng);
+                let size = shape.get(a).copied().unwrap_or(2);
+                let k = if wild && rng.chance(1, 10) { size + 1 } else { rng.below(size as u64 + 1) as usize };
+                let cap = match rng.below(8) {
+                    0 => size.saturating_sub(1),
+                    1 => k,
+                    2 => 0,
+                    3 | 4 => size + 1 + rng.below(2) as usize,
+                    _ => size,
+                };
+                return Op::Append(a, k, cap);
             }
         }
     }
